@@ -80,7 +80,7 @@ def auto_parts(spec: Spec, max_parts: int = 16, rev: bool = True, skip: Sequence
         if nd.want_max > 0:
             dims.append(("r.%s.want" % nd.name, nd.want_max + 1))
     for nd in spec.nodes:
-        n_lab = len(nd.labels) + (1 if nd.unknown_label else 0)
+        n_lab = len(nd.labels) + (1 if nd.unknown_label else 0) + (1 if nd.none_label else 0)
         if n_lab > 1:
             dims.append(("r.%s.label0" % nd.name, n_lab))
     for nd in spec.nodes:
@@ -131,13 +131,15 @@ def engine_harness(
                 cfg.rev_taskset = sym.bool("rev_taskset")
             obs = run_engine(spec, beh, cfg)
             ref = Ref(spec, beh).run()
-            label = None
-            if judge_hang:
-                label = V.hang(obs)
-            if label is None:
-                label = verdict(obs, ref, sym)
+            labels: List[str] = []
+            if judge_hang and V.hang(obs):
+                labels.append(V.hang(obs))
+            got = verdict(obs, ref, sym)
+            for lab in (got if isinstance(got, (list, tuple)) else [got]):
+                if lab and lab not in labels:
+                    labels.append(lab)
             info = {"digest": obs.digest(), "goals": goals_of(obs, ref), "summary": summary(obs, ref)}
-            return (label or "ok"), info
+            return (labels or "ok"), info
 
         return h
 
